@@ -35,6 +35,8 @@ RULE = ("program trees (items = node | modification | property line below a node
         "non-trivial = program with a block closed by indentation or nested blocks or an unselected clause "
         "containing lines or neighbouring compact blocks; distinct = canonical JSON of tree + assignment")
 ASSUMPTIONS = [
+    "expression conditions are written in every spelling the parser accepts and solves: (\"…\"), ('…'), \"…\", '…' "
+    "(the last three are accepted but undocumented)",
     "conditions are the literals `@case true` / `@case false` (a share: `@case (\"{?zt} == 1\")` against a "
     "top-level int node, and hand-written texts in corpus/C15/texts.json); arbitrary expressions belong to C18",
     "written names are plain identifiers; clause keywords may carry a dotted parent of plain identifiers "
@@ -345,6 +347,11 @@ def impl_run(text, via=None):
             return "err", None
 
 
+def spell(expr, n):
+    """The spellings of an expression condition that the parser accepts and solves: ("…"), ('…'), "…", '…'."""
+    return ['("%s")', "('%s')", '"%s"', "'%s'"][n % 4] % expr
+
+
 def to_text(lines, rng=None, deco=None, ctxs=None, firsts=None):
     """DIP text of the rendered lines. `deco`: None | 'blank' | 'expr' | 'undef' | 'ref' (harness-level decorations).
     'undef': every @case line lying inside an unselected clause (`ctxs`, see case_contexts) gets a condition
@@ -365,14 +372,14 @@ def to_text(lines, rng=None, deco=None, ctxs=None, firsts=None):
             if c is not None and "@case " in txt:
                 # the same condition text for every top-level block; the node it refers to is modified in between
                 out.append("zc = %d" % (1 if c else 0))
-                txt = txt[:txt.index("@case ")] + '@case ("{?zc} == 1")'
+                txt = txt[:txt.index("@case ")] + "@case " + spell("{?zc} == 1", ntop)
         if deco == "expr" and "@case " in txt:
             head = txt[:txt.index("@case ")]
-            txt = head + '@case ("{?zt} == %d")' % (1 if txt.endswith("true") else 0)
+            txt = head + "@case " + spell("{?zt} == %d" % (1 if txt.endswith("true") else 0), ncase)
         if "@case " in txt:
             dead = ctxs is not None and ncase < len(ctxs) and not ctxs[ncase]
             if deco == "undef" and dead:
-                txt = txt[:txt.index("@case ")] + '@case ("{?zq} == 1")'
+                txt = txt[:txt.index("@case ")] + "@case " + spell("{?zq} == 1", ncase)
             elif deco == "ref":
                 # the third condition form: a bare reference to a bool node; inside unselected clauses
                 # every second one refers to a node that does not exist (it must not be injected)
